@@ -411,7 +411,7 @@ theorem c14_helper_accepted_at_endpoint_partial {now0 now now' : Int} {cd : HlpC
     (hpub : jwk.keyNo = signer.key.Key.Key.keyNo ∧ jwk.kty = signer.key.Key.Key.kty)
     (hnotEd : signer.key.Key.Key.kty ≠ .okp)
     (h0 : Go.second ≤ now) (h1 : now ≤ now') (hwin : now' + 2 * Go.second ≤ now + 3600 * Go.second)
-    (hca : ca.ClientAssertion ≠ "") (htok : p.tokenOf ca.ClientAssertion = tok) :
+    (hca : ca.ClientAssertion ≠ "") (htok : p.tokenOf ca.ClientAssertion = tok) (hstock : p.customVerifier = none) :
     GenC14.ClientJWTAuth now' reqIssuer ca p = .ok clientID := by
   obtain ⟨e1, e2, e3, e4, e5, e6⟩ := c14_audience_is_request_issuer now' reqIssuer p
   have hv := c14_helper_assertion_accepted_partial (v := { (GenC14.ProviderJWTProfileVerifier now' reqIssuer p).flat with CheckSubject := none })
@@ -420,8 +420,7 @@ theorem c14_helper_accepted_at_endpoint_partial {now0 now now' : Int} {cd : HlpC
     (by right; simp only [e2, providerMaxAgeIAT, halfSecond, Go.second] at *; omega)
   obtain ⟨c, hc, hi, _⟩ := hv
   rw [← verify_default_subject e6] at hc
-  unfold GenC14.ClientJWTAuth Hand.asrtVerifyJWTAssertion
-  simp [hca, htok, hc, hi]
+  exact clientJWTAuth_ok.2 ⟨hca, c, by rw [verifierAt_stock hstock, htok]; exact hc, hi⟩
 
 /-- C14 at the token endpoint (RSA and EC keys): the jwt-bearer token source `profile.NewJWTProfileTokenSource(issuer, clientID, keyID, key, scopes,
     WithStaticTokenEndpoint(..))` sends a grant of type jwt-bearer whose assertion the provider's verifier for `issuer` accepts -/
